@@ -203,3 +203,60 @@ mut("c07-small-level-keeps-independent-large", "C07",
     ("src/bdd.rs",
      "        if l == h {\n            // Independent from this variable\n            return false;\n        }\n        if l == (!h & mid_mask)",
      "        if l == h {\n            // Independent from this variable\n            return table.len() > 8 && level == 3;\n        }\n        if l == (!h & mid_mask)"))
+
+
+def rev(mid, prop, what, commit):
+    """A historical state of the repository (before one of the fix: commits) instead of an edit."""
+    MUTANTS[mid] = {"prop": prop, "what": what, "rev": commit, "edits": []}
+
+
+# ---------------------------------------------------------------- C04
+rev("c04-before-n01-fix", "C04", "tree before the fix of D2/D3 (p/npn canonization panic for n <= 1)", "a48b5a9")
+mut("c04-swaps5-one-entry", "C04",
+    "one entry of the 120-entry swap table for 5 variables changed",
+    ("src/canonization.rs",
+     "        0, 1, 2, 3, 0, 3, 2, 1, 0, 2, 0, 1, 2, 3, 2, 3, 2, 1, 0, 1, 0, 1, 2, 3, 2, 3, 2, 1, 0, 2,\n        0, 1, 2, 3, 0, 3, 2, 1, 0, 3, 0, 1, 2, 3, 0, 3, 2, 1, 0, 2,",
+     "        0, 1, 2, 3, 0, 3, 2, 1, 0, 2, 0, 1, 2, 3, 2, 3, 2, 1, 0, 1, 0, 1, 2, 3, 2, 3, 2, 1, 0, 2,\n        0, 1, 2, 3, 0, 3, 2, 1, 0, 2, 0, 1, 2, 3, 0, 3, 2, 1, 0, 2,"))
+mut("c04-flips6-one-entry", "C04",
+    "one entry of the Gray-code flip table for 6 variables changed (5 -> 4 in the middle)",
+    ("src/canonization.rs",
+     "        0, 5, 0, 1, 0, 2, 0, 1, 0, 3, 0, 1, 0, 2, 0, 1, 0, 4, 0, 1, 0, 2, 0, 1, 0, 3, 0, 1, 0, 2,\n        0, 1, 0, 5,",
+     "        0, 4, 0, 1, 0, 2, 0, 1, 0, 3, 0, 1, 0, 2, 0, 1, 0, 4, 0, 1, 0, 2, 0, 1, 0, 3, 0, 1, 0, 2,\n        0, 1, 0, 5,"))
+mut("c04-p-keeps-maximum", "C04",
+    "p_canonization_ind keeps the greatest instead of the smallest visited table",
+    ("src/canonization.rs",
+     "        swap_adjacent_inplace(num_vars, table, *swap as usize);\n        if cmp(table, best).is_lt() {\n            best_ind = Some(ind);\n            best.clone_from_slice(table);\n        }\n        ind += 1\n",
+     "        swap_adjacent_inplace(num_vars, table, *swap as usize);\n        if cmp(table, best).is_gt() {\n            best_ind = Some(ind);\n            best.clone_from_slice(table);\n        }\n        ind += 1\n"))
+mut("c04-npn-gray-no-rollback", "C04",
+    "npn_canonization for n >= 7 generates the Gray flips without the closing flip",
+    ("src/canonization.rs",
+     "        let all_swaps = generate_swaps(num_vars, true);\n        let all_flips = generate_gray_flips(num_vars, true);",
+     "        let all_swaps = generate_swaps(num_vars, true);\n        let all_flips = generate_gray_flips(num_vars, false);"))
+mut("c04-n-skips-second-output-polarity-large", "C04",
+    "n_canonization_ind compares only after the first complement for multi-word tables",
+    ("src/canonization.rs",
+     "        flip_inplace(num_vars, table, *flip as usize);\n        for _ in 0..2 {\n            not_inplace(num_vars, table);\n            if cmp(table, best).is_lt() {\n                best_ind = Some(ind);\n                best.clone_from_slice(table);\n            }\n            ind += 1;\n        }\n    }\n    best_ind\n}\n\npub fn npn",
+     "        flip_inplace(num_vars, table, *flip as usize);\n        for k in 0..2 {\n            not_inplace(num_vars, table);\n            if (k == 0 || table.len() == 1) && cmp(table, best).is_lt() {\n                best_ind = Some(ind);\n                best.clone_from_slice(table);\n            }\n            ind += 1;\n        }\n    }\n    best_ind\n}\n\npub fn npn"))
+
+# ---------------------------------------------------------------- C05
+rev("c05-before-certificate-fix", "C05", "tree before the fix of D3 (certificate of walk step 0 when the input is already canonical)", "a48b5a9")
+mut("c05-p-res-swaps-nothing", "C05",
+    "p_canonization_res swaps an entry with itself",
+    ("src/canonization.rs",
+     "        res_perm.swap(swp, swp + 1);\n        if ind == best_ind {\n            return;\n        }",
+     "        res_perm.swap(swp, swp);\n        if ind == best_ind {\n            return;\n        }"))
+mut("c05-npn-res-drops-output-bit", "C05",
+    "npn_canonization_res never toggles the output-complement bit for n >= 5",
+    ("src/canonization.rs",
+     "            cur_flip ^= 1 << *flip;\n            for _ in 0..2 {\n                cur_flip ^= 1 << num_vars;\n                if ind == best_ind {\n                    return cur_flip;\n                }",
+     "            cur_flip ^= 1 << *flip;\n            for _ in 0..2 {\n                if num_vars < 5 {\n                    cur_flip ^= 1 << num_vars;\n                }\n                if ind == best_ind {\n                    return cur_flip;\n                }"))
+mut("c05-n-res-checks-before-toggle", "C05",
+    "n_canonization_res tests the index before toggling the output bit (off by one polarity)",
+    ("src/canonization.rs",
+     "        cur_flip ^= 1 << *flip;\n        for _ in 0..2 {\n            cur_flip ^= 1 << num_vars;\n            if ind == best_ind {\n                return cur_flip;\n            }\n            ind += 1;\n        }\n    }\n    // Should never arrive there...\n    panic!();\n}\n\n/// Find the corresponding permutation and",
+     "        cur_flip ^= 1 << *flip;\n        for _ in 0..2 {\n            if ind == best_ind {\n                return cur_flip;\n            }\n            cur_flip ^= 1 << num_vars;\n            ind += 1;\n        }\n    }\n    // Should never arrive there...\n    panic!();\n}\n\n/// Find the corresponding permutation and"))
+mut("c05-npn-large-uses-other-sequence-for-res", "C05",
+    "npn_canonization (n >= 7) decodes the certificate with a swap sequence generated without rollback... of a different start",
+    ("src/canonization.rs",
+     "        npn_canonization_res(num_vars, res_perm, &all_swaps, &all_flips, best_ind)",
+     "        let mut other = all_swaps.clone();\n        other.rotate_left(1);\n        npn_canonization_res(num_vars, res_perm, &other, &all_flips, best_ind)"))
